@@ -21,9 +21,9 @@ PROPS = {
     },
     "C02": {
         "props_modules": ["Ach.Props.Layouts", "Ach.Props.Dispatch", "Ach.Props.C02"],
-        "streams": [("record", 13000, 130000), ("write", 2000, 30000), ("reader", 2000, 40000)],
-        "level_text": "Proof: (record level) every layout the compiler accepts is exactly 94 columns wide (theorem over all extracted facts), and every record whose field values are within their widths - or that was parsed by the Reader from a 94-column line with stable converter pairs - renders to exactly 94 characters; (file level, on the Writer model of the emission order and padding loop over the file's tree shape) the record count is a multiple of ten, nothing but fewer than ten all-9 records follows the file control, the output is in the grammar FH (BH (ED AD*)* BC)* FC 9* and parses back to the tree, and File.Create's block count / record total equal what is physically written.",
-        "level_note": "Trusted: as C01; the Writer model is tied by the write correspondence stream (kinds of the records the real Writer emits vs the model, generated files of every SEC/IAT/ADV, all residues mod 10). Line endings and the per-batch counts in controls are checked by the oracle on the bytes.",
+        "streams": [("record", 13000, 130000), ("write", 2000, 30000), ("reader", 2000, 40000), ("io", 3000, 40000)],
+        "level_text": "Proof: (record level) every layout the compiler accepts is exactly 94 columns wide (theorem over all extracted facts), and every record whose field values are within their widths - or that was parsed by the Reader from a 94-column line with stable converter pairs - renders to exactly 94 characters; (file level, on the Writer model of the emission order and padding loop over the file's tree shape) the record count is a multiple of ten, nothing but fewer than ten all-9 records follows the file control, the output is in the grammar FH (BH (ED AD*)* BC)* FC 9* and parses back to the tree, and File.Create's block count / record total equal what is physically written; on the byte-level Writer model (C16) what a successful Write leaves in the sink is exactly every non-empty record followed by the configured line ending, then the filler records each followed by it.",
+        "level_note": "Trusted: as C01; the Writer model is tied by the write correspondence stream (kinds of the records the real Writer emits vs the model, generated files of every SEC/IAT/ADV, all residues mod 10). The byte-level Writer model is tied by the io stream. The per-batch counts in controls are checked by the oracle on the bytes.",
     },
     "C03": {
         "streams": [("validate", 3000, 40000), ("iatvalidate", 3000, 40000)],
